@@ -24,7 +24,12 @@ def raii_nodes(text, lw):
             j += 1
         inner = text[m.end():j]
         inner = re.sub(r'\b%s\.get\(\)' % x, x, inner)
-        inner = re.sub(r'\b%s\.release\(\)' % x, 'XV_UP_RELEASE(%s)' % x, inner)
+        # X.release() is evaluated exactly once: hoist it in front of the statement that uses it (the atomics macros evaluate arguments repeatedly)
+        while True:
+            r = re.search(r'\b%s\.release\(\)' % x, inner)
+            if not r: break
+            st = max(inner.rfind(c, 0, r.start()) for c in ';{}') + 1
+            inner = inner[:st] + ' marked_ptr %s_released = XV_UP_RELEASE(%s);' % (x, x) + inner[st:r.start()] + '%s_released' % x + inner[r.end():]
         inner = re.sub(r'\b(return\b[^;]*;|continue;|break;)', lambda k: '{ XV_UP_DTOR(%s); %s }' % (x, k.group(1)), inner)
         # an allocation failure leaves X null: nothing to destroy on that exit (handled by may_throw right after the declaration)
         text = text[:m.start()] + 'node* %s = new node(%s);' % (x, arg) + inner + ' XV_UP_DTOR(%s);\n' % x + text[j:]
@@ -134,6 +139,9 @@ RUNS = (
   + per_e('try_pop', 'h_try_pop', [4], lambda e: [], es=[4], cls='unbounded')
   + per_e('push_int', 'h_push_int', [2], lambda e: ['ram_node_ctor.0:%d' % (e + 1), 'ram_node_dtor.0:%d' % (e + 2)], mode='INT', cls='shape-complete')
   + per_er('pop_int', 'h_pop_int', [(2, 1), (3, 0)], lambda e, r: ['ram_pop_cut.%d:%d' % (i, r + 2) for i in range(3)], ER, mode='INT', cls='shape-complete')
+  + per_e('pop_race', 'h_pop_race', [1, 2], lambda e: ['ram_pop.%d:%d' % (i, e + 4) for i in range(2)] + ['ram_push.%d:%d' % (i, e + 3) for i in range(2)]
+          + ['ram_node_ctor.0:%d' % (e + 1), 'ram_node_dtor.0:%d' % (e + 2)], es=[1, 2, 3], mode='INT', cls='shape-complete', defs={'XV_R': 1},
+          note='end-to-end scenario on the original loops: a second consumer draws a ticket of the same node at an arbitrary moment; then a push')
   + per_e('push_rollback', 'h_push_rollback', [1], lambda e: ['ram_push.0:%d' % (e + 4), 'ram_push.1:%d' % (e + 4), 'ram_node_ctor.0:%d' % (e + 1), 'ram_node_dtor.0:%d' % (e + 2)],
           es=[1, 2, 3], mode='INT', cls='shape-complete',
           note='end-to-end scenario on the original loop: a competing producer links its node between the load of next and the CAS')
@@ -174,7 +182,7 @@ UNIT = dict(
     dict(name='XV_STEP', file=F, regex=r'static constexpr unsigned step_size =\s*([^;]+);'),
     dict(name='XV_MAXIDX', file=F, regex=r'static constexpr unsigned max_idx = ([^;]+);'),
     # static_asserts that directly follow the two constants (none on the original tree)
-    dict(name='XV_STATIC_ASSERTS', file=F, regex=r'static constexpr unsigned max_idx = [^;]+;\s*((?:static_assert\s*\((?:[^;"]|"[^"]*")*\)\s*;\s*)*)',
+    dict(name='XV_STATIC_ASSERTS', file=F, regex=r'static constexpr unsigned max_idx = [^;]+;\s*(?:static constexpr [^;]+;\s*)*((?:static_assert\s*\((?:[^;"]|"[^"]*")*\)\s*;\s*)*)',
          subst=[(r'static_assert\s*\(((?:[^;",]|"[^"]*")*),\s*(?:"[^"]*"\s*)+\)\s*;\s*', r'(\1) && '), (r'^(.*)$', r'\1 1')]),
     # the statement that maps the drawn counter value to an entry index in push / pop, the expression in ~node, and the variables they use
     dict(name='XV_PUSH_SLOT_STMT', file=F, regex=r'\n\s*(\w+ [-+*/%&|^]?=[^;=]*);\s*marked_value \w+ = nullptr;'),
